@@ -30,6 +30,11 @@ type DocSpec struct {
 	RelData  map[string][]string `json:"rel_data"`
 	Frags    []string            `json:"fragments"`
 	Links    map[string]string   `json:"links,omitempty"`
+	// what else the URL carries (none of it selects fields; it shows up in the self link)
+	URLFilter *FSpec     `json:"url_filter,omitempty"`
+	URLSort   []string   `json:"url_sort,omitempty"`
+	URLPage   [][2]any   `json:"url_page,omitempty"`
+	URLInc    [][]string `json:"url_include,omitempty"` // inclusion paths as relationship names from the URL's type
 }
 
 var prefixPool = []string{"", "/", "https://example.org", "https://example.org/", "https://example.org/api/v1", "/api/", "http://h/a b", "https://example.org/\"q\""}
@@ -276,6 +281,42 @@ func genDoc(r *RNG, o docOpts) *DocSpec {
 	if r.Chance(1, 8) {
 		d.Links = map[string]string{"next": "/n?page=2", "about": genString(r)}
 	}
+	t0 := &s.Types[0]
+	if r.Chance(1, 4) {
+		// a filter with unsorted lists (nothing about marshaling may reorder them)
+		vals := shuffleStrings(r, []string{"z9", "m5", "a1", "k3"})[:r.Range(2, 4)]
+		f := FSpec{Op: "in", Field: "some-field", IsList: true, Strs: vals}
+		if r.Bool() {
+			f = FSpec{Op: r.Pick([]string{"and", "or"}), Kids: []FSpec{f, {Op: "in", Field: "other", IsList: true, Strs: []string{"b", "a"}}}}
+		}
+		d.URLFilter = &f
+	}
+	if len(d.Frags) == 1 && r.Chance(1, 3) {
+		for _, a := range t0.Attrs {
+			if r.Bool() {
+				d.URLSort = append(d.URLSort, r.Pick([]string{"", "-"})+a.Name)
+			}
+		}
+		d.URLSort = append(d.URLSort, "id")
+		if r.Bool() {
+			d.URLPage = [][2]any{{"size", r.Intn(50)}, {"number", r.Intn(5)}}
+		}
+	}
+	if r.Chance(1, 3) {
+		// inclusion paths that exist in the schema, from the URL's type
+		for n := r.Range(1, 2); n > 0; n-- {
+			cur := t0
+			var path []string
+			for depth := r.Range(1, 3); depth > 0 && cur != nil && len(cur.Rels) > 0; depth-- {
+				rl := cur.Rels[r.Intn(len(cur.Rels))]
+				path = append(path, rl.Name)
+				cur = s.Type(rl.ToType)
+			}
+			if len(path) > 0 {
+				d.URLInc = append(d.URLInc, path)
+			}
+		}
+	}
 	return d
 }
 
@@ -376,6 +417,31 @@ func (d *DocSpec) build() *docBuilt {
 		IsCol:     len(d.Frags) == 1,
 		ResType:   d.Frags[0],
 		Params:    &jsonapi.Params{Fields: copyStrMap(d.Fields), SortingRules: []string{}, Page: map[string]any{}},
+	}
+	if d.URLFilter != nil {
+		b.URL.Params.Filter = d.URLFilter.build()
+	}
+	b.URL.Params.SortingRules = append(b.URL.Params.SortingRules, d.URLSort...)
+	for _, kv := range d.URLPage {
+		b.URL.Params.Page[kv[0].(string)] = kv[1]
+	}
+	for _, path := range d.URLInc {
+		cur := d.Schema.Type(d.Frags[0])
+		var rels []jsonapi.Rel
+		for _, name := range path {
+			if cur == nil {
+				break
+			}
+			rl := cur.Rel(name)
+			if rl == nil {
+				break
+			}
+			rels = append(rels, jsonapi.Rel{FromType: cur.Name, FromName: rl.Name, ToOne: rl.ToOne, ToType: rl.ToType, ToName: rl.ToName, FromOne: rl.FromOne})
+			cur = d.Schema.Type(rl.ToType)
+		}
+		if len(rels) > 0 {
+			b.URL.Params.Include = append(b.URL.Params.Include, rels)
+		}
 	}
 	return b
 }
